@@ -76,7 +76,7 @@ def main():
             print("PATCH DOES NOT APPLY", out)
             return 2
         shutil.copy2(demo, os.path.join(wt, "tests", "zz_seed_demo.rs"))
-        feats = "-F weak-ptrs,cleaners"
+        feats = sys.argv[6] if len(sys.argv) > 6 else "-F weak-ptrs,cleaners"
         rc_with, out_with = sh("cargo test --offline --test zz_seed_demo %s 2>&1 | tail -40" % feats, cwd=wt)
         fails_with = ("test result: FAILED" in out_with) or ("SIGABRT" in out_with) or ("SIGSEGV" in out_with) or ("process didn't exit successfully" in out_with)
         meta["ran"].append("cargo test --offline --test zz_seed_demo %s  (with the change): %s" % (feats, "FAILS" if fails_with else "passes"))
